@@ -28,7 +28,14 @@ CLASSES6 = '{"empty", "plain", "sep", "quote", "crlf", "nonascii"}'
 CLASSES5 = '{"empty", "plain", "sep", "quote", "crlf"}'
 CLASSES4 = '{"plain", "sep", "quote", "crlf"}'
 CLASSES3 = '{"plain", "sep", "quote"}'
-CLASSES_BIG = '{"empty", "plain", "sep", "quote", "cr", "lf", "crlf", "nonascii", "astral", "blank", "mix", "dquote", "endq", "long"}'
+# runs of 2 and 3 adjacent quotes at the start, in the middle and at the end of a value
+CLASSES_Q = '{"plain", "quote", "qq", "qqq", "xqqy", "xqqqy", "tailqq", "headqq"}'
+CLASSES_Q4 = '{"plain", "qq", "xqqy", "tailqq"}'
+CLASSES_BIG = ('{"empty", "plain", "sep", "quote", "cr", "lf", "crlf", "nonascii", "astral", "blank", "mix", "dquote", "endq", "long", '
+               '"qq", "qqq", "xqqy", "xqqqy", "tailqq", "headqq"}')
+# header names of which each is a proper prefix of the next (a, ab, abc, abcd), in both file orders
+HK_PREFIX = '{"prefix", "prefixrev"}'
+HK_ALL = '{"plain", "nasty", "prefix", "prefixrev"}'
 ENCODINGS = ["utf8", "utf16le", "utf16be", "utf32le", "utf32be"]
 
 MAX_ABNORMAL = 6
@@ -76,13 +83,17 @@ def consts(kw):
 def leg_mc(chk, tier):
     if tier == "quick":
         confs = [dict(shapes="{10, 11, 21, 12}", mode="all", chunks="{3, 5}"),
-                 dict(shapes="{31, 22}", classes=CLASSES5, mode="uniform", chunks="{4}", ragged="FALSE")]
+                 dict(shapes="{31, 22}", classes=CLASSES5, hk='{"nasty", "prefix"}', mode="uniform", chunks="{4}", ragged="FALSE"),
+                 dict(shapes="{11, 21}", classes=CLASSES_Q, hk=HK_PREFIX, seps="{44, 32}", mode="all", chunks="{3, 5}"),
+                 dict(shapes="{31}", classes=CLASSES_Q4, hk=HK_PREFIX, seps="{44, 59}", mode="uniform", chunks="{4}", ragged="FALSE")]
     else:
         confs = [dict(shapes="{10, 11, 21, 12}", classes=CLASSES12, mode="all", chunks="{3, 4, 5}"),
                  dict(shapes="{31, 13}", classes=CLASSES6, seps="{44}", hk='{"plain"}', mode="all", chunks="{4, 7}"),
                  dict(shapes="{22}", seps="{44, 32}", hk='{"plain"}', mode="uniform", chunks="{3, 7}", ragged="FALSE"),
                  dict(shapes="{32, 23}", classes=CLASSES4, mode="uniform", chunks="{4}", ragged="FALSE",
-                      hk='{"plain"}', seps="{44}")]
+                      hk='{"plain"}', seps="{44}"),
+                 dict(shapes="{11, 21, 12}", classes=CLASSES_Q, hk=HK_PREFIX, mode="all", chunks="{3, 4, 5}"),
+                 dict(shapes="{31, 41}", classes=CLASSES_Q4, hk=HK_PREFIX, seps="{44, 59}", mode="uniform", chunks="{4, 7}", ragged="FALSE")]
     jobs = []
     for i, c in enumerate(confs):
         jobs.append(dict(module="MC_Csv", cfg=write_cfg("mc_csv_%d.cfg" % i, **c), workers=6 if tier == "quick" else 8, timeout=1700, xmx="4g"))
@@ -118,23 +129,30 @@ def generate(chk, tier):
     """-> (tables, texts): dicts as printed by MC_Csv.Export"""
     jobs = []
     if tier == "quick":
-        save_confs = [dict(shapes="{10, 11, 21, 12}"), dict(shapes="{31, 22}", classes=CLASSES4, hk='{"nasty"}', seps="{44, 32}")]
+        save_confs = [dict(shapes="{10, 11, 21, 12}"), dict(shapes="{31, 22}", classes=CLASSES4, hk='{"nasty"}', seps="{44, 32}"),
+                      dict(shapes="{11, 21, 12}", classes=CLASSES_Q, hk=HK_PREFIX, seps="{44, 32}")]
         load_confs = [dict(shapes="{10, 11, 21}", classes=CLASSES5, hk='{"plain"}', seps="{44, 59, 32}", mode="all"),
                       dict(shapes="{12}", classes=CLASSES4, hk='{"nasty"}', seps="{59, 32}", mode="all"),
-                      dict(shapes="{31}", classes=CLASSES5, hk='{"nasty"}', seps="{9, 124}", mode="uniform", ragged="FALSE")]
-        sims = [dict(shapes="{32, 33, 23, 43}", classes=CLASSES_BIG, mode="random", ragged="FALSE", n=500),
-                dict(shapes="{32, 23}", classes=CLASSES_BIG, mode="random", n=60)]
+                      dict(shapes="{31}", classes=CLASSES5, hk='{"nasty"}', seps="{9, 124}", mode="uniform", ragged="FALSE"),
+                      # adjacent quotes in every position x both readers; prefix-related column names x every request order
+                      dict(shapes="{11, 21}", classes=CLASSES_Q, hk=HK_PREFIX, seps="{44, 32}", mode="uniform", ragged="FALSE"),
+                      dict(shapes="{31}", classes=CLASSES_Q4, hk=HK_PREFIX, seps="{59}", mode="uniform", ragged="FALSE")]
+        sims = [dict(shapes="{32, 33, 23, 43}", classes=CLASSES_BIG, hk=HK_ALL, mode="random", ragged="FALSE", n=500),
+                dict(shapes="{32, 23}", classes=CLASSES_BIG, hk=HK_ALL, mode="random", n=60)]
     else:
         save_confs = [dict(shapes="{10, 11, 21, 12}", classes=CLASSES12),
                       dict(shapes="{31, 22, 13}", classes=CLASSES6, seps="{44, 59, 32}"),
-                      dict(shapes="{32, 23}", classes=CLASSES3, seps="{9, 124}", hk='{"nasty"}')]
+                      dict(shapes="{32, 23}", classes=CLASSES3, seps="{9, 124}", hk='{"nasty"}'),
+                      dict(shapes="{11, 21, 12, 31}", classes=CLASSES_Q, hk=HK_PREFIX, seps="{44, 32}")]
         load_confs = [dict(shapes="{10, 11, 21}", classes=CLASSES10, seps="{44, 32}", hk='{"plain"}', mode="all"),
                       dict(shapes="{12}", classes=CLASSES6, seps="{59, 9}", hk='{"nasty"}', mode="all"),
                       dict(shapes="{31}", classes=CLASSES3, hk='{"plain"}', seps="{124}", mode="all", ragged="FALSE"),
-                      dict(shapes="{22, 31, 13}", classes=CLASSES4, seps="{124}", mode="uniform", ragged="FALSE")]
-        sims = [dict(shapes="{32, 33, 23, 43}", classes=CLASSES_BIG, mode="random", ragged="FALSE", n=3000),
-                dict(shapes="{46, 38, 49}", classes=CLASSES_BIG, mode="random", ragged="FALSE", n=600),
-                dict(shapes="{32, 23, 44}", classes=CLASSES_BIG, mode="random", n=300)]
+                      dict(shapes="{22, 31, 13}", classes=CLASSES4, seps="{124}", mode="uniform", ragged="FALSE"),
+                      dict(shapes="{11, 21, 12}", classes=CLASSES_Q, hk=HK_PREFIX, seps="{44, 32}", mode="all"),
+                      dict(shapes="{31, 41}", classes=CLASSES_Q4, hk=HK_PREFIX, seps="{59}", mode="uniform", ragged="FALSE")]
+        sims = [dict(shapes="{32, 33, 23, 43}", classes=CLASSES_BIG, hk=HK_ALL, mode="random", ragged="FALSE", n=3000),
+                dict(shapes="{46, 38, 49}", classes=CLASSES_BIG, hk=HK_ALL, mode="random", ragged="FALSE", n=600),
+                dict(shapes="{32, 23, 44}", classes=CLASSES_BIG, hk=HK_ALL, mode="random", n=300)]
     for i, c in enumerate(save_confs):
         jobs.append(("save", c, dict(module="MC_Csv", workers=4, timeout=1200, xmx="4g", cfg=write_cfg(
             "gen_save_%d.cfg" % i, **dict(c, mode="none", ragged="FALSE", gen="save", inv="Export")))))
